@@ -149,7 +149,7 @@ def build_db(dirpath, world, *, id_attr='key', sig_order=None, extra_sigs=(), gd
         order = genome_order if genome_order is not None else list(range(len(world['genomes'])))
         for gi in order:
             g = world['genomes'][gi]
-            genome = Genome(key=g['key'], description=g['desc'], ncbi_db='assembly', ncbi_id=g.get('ncbi_id'),
+            genome = Genome(key=g['key'], description=g['desc'], ncbi_db=g.get('ncbi_db', 'assembly'), ncbi_id=g.get('ncbi_id'),
                             genbank_acc=g.get('genbank_acc'), refseq_acc=g.get('refseq_acc'))
             s.add(AnnotatedGenome(genome=genome, genome_set=gset, taxon=taxa[g['taxon'] - 1], organism='org'))
         s.commit()
